@@ -75,6 +75,8 @@ def replay(vh, scr, seed, edges=None, walks=None, tag="r"):
     if p.returncode != 0:
         raise Broken("registry replay failed: " + p.stderr[-2000:])
     r = json.load(open(outp))
+    if r.get("hung"):
+        log("  replay %s: %d replays abandoned, a Broker call did not return" % (tag, r["hung"]))
     log("  replay %-10s %6.1fs edges=%d walks=%d calls=%d mismatches=%d" % (tag, time.time() - t0, r["edges"], r["walks"], r["calls"], r["mismatch_count"]))
     return r
 
@@ -181,6 +183,9 @@ def run(prop, tier, seed, out):
                     out.notes.append("mismatch attributed to %s (not %s): %s" % (",".join(m["props"]), prop, m["what"]))
             if r["by_prop"].get(prop, 0) and not out.violations:
                 out.violation("%s: %d mismatches attributed to %s" % (nm, r["by_prop"][prop], prop), (r["mismatches"] or [])[:3])
+            if r.get("hung") and not out.violations:
+                raise Broken("%s: the real Broker stopped answering while the model's histories were replayed (a call never returned: property C12); "
+                             "%s cannot be decided on this tree" % (nm, prop))
         if prop == "C06":
             # unbounded histories: the reference-counting core with an inductive invariant, discharged by Apalache
             base = ["--cinit=CInit"]
